@@ -122,15 +122,19 @@ class Body:
                         p = s["p"]
                         if not p["proj"]:
                             d[p["l"]].append((bi, si, s["rv"]))
+                        elif p["proj"][0] == "deref":
+                            d[("through", p["l"])].append((bi, si, s))   # writes the pointee, not the local
                         else:
                             d[("partial", p["l"])].append((bi, si, s))
                     elif s["k"] == "setdiscr":
-                        d[("partial", s["p"]["l"])].append((bi, si, s))
+                        d[("partial" if s["p"]["proj"][:1] != ["deref"] else "through", s["p"]["l"])].append((bi, si, s))
                 t = b["term"]
                 if t["k"] == "call" and "dest" in t:
                     p = t["dest"]
                     if not p["proj"]:
                         d[p["l"]].append((bi, "term", t))
+                    elif p["proj"][0] == "deref":
+                        d[("through", p["l"])].append((bi, "term", t))
                     else:
                         d[("partial", p["l"])].append((bi, "term", t))
             self._defs = d
@@ -199,7 +203,9 @@ class Body:
         ds = self.defs().get(l, [])
         partial = self.defs().get(("partial", l), [])
         if self.is_arg(l):
-            return ("arg", l, name, ty)
+            if not ds and not partial:
+                return ("arg", l, name, ty)
+            return ("local", l, name, ty)      # a reassigned `mut` parameter has several values
         if depth <= 0:
             return ("local", l, name, ty)
         if len(ds) == 1 and not partial:
@@ -281,7 +287,7 @@ def strip_generics(path):
     i = 0
     while i < len(path):
         c = path[i]
-        if c == "<" and depth == 0 and path[i - 2:i] == "::" if i >= 2 else False:
+        if c == "<" and depth == 0 and i >= 2 and path[i - 2:i] == "::" and not path.startswith("<impl ", i):
             # turbofish: skip to matching '>'
             depth = 1
             i += 1
